@@ -16,7 +16,7 @@ def fhex(x):
 def build(mesh):
     from femio import FEMData, FEMAttribute, FEMElementalAttribute
     nodes = FEMAttribute('NODE', np.array(mesh['node_ids'], dtype=np.int64),
-                         np.array(mesh['coords'], dtype=np.float64))
+                         np.array(mesh['coords'], dtype=getattr(np, mesh.get('coord_dtype', 'float64'))))
     blocks = {}
     for ty, eids, conn in mesh['blocks']:
         blocks[ty] = FEMAttribute(ty, np.array(eids, dtype=np.int64), np.array(conn, dtype=np.int64))
@@ -98,8 +98,29 @@ def run_task(t):
         after_mesh = {'node_ids': mesh['node_ids'], 'coords': mesh['coords'],
                       'blocks': res['after_blocks']}
         res['after'] = vols(after_mesh, 'linear')
-        # what the same object reports after the call (fresh evaluation expected)
+        # what the same object reports after the call (fresh evaluation expected),
+        # with the very options make_elements_positive used internally and with others
         res['after_same_object'] = vols(fd, 'linear')
+        res['after_same_object_centroid'] = vols(fd, 'centroid')
+        try:
+            mt = fd.calculate_element_metrics(raise_negative_metric=False)
+            res['after_same_object_metrics'] = {'ids': [int(i) for i in fd.elements.ids],
+                                                'values': [fhex(x) for x in np.asarray(mt)[:, 0]]}
+        except Exception as ex:   # noqa
+            res['after_same_object_metrics'] = {'error': type(ex).__name__ + ': ' + str(ex)[:200]}
+        try:
+            fd.calculate_element_metrics()          # default: raises on a negative element
+            res['default_metrics_raises'] = False
+        except ValueError:
+            res['default_metrics_raises'] = True
+        # idempotence: a second call must not change anything
+        try:
+            fd.make_elements_positive()
+            res['after_second_blocks'] = blocks_of(fd)
+            res['after_second'] = vols({'node_ids': mesh['node_ids'], 'coords': mesh['coords'],
+                                        'blocks': res['after_second_blocks']}, 'linear')
+        except (NotImplementedError, ValueError) as ex:
+            res['second_error'] = type(ex).__name__
         return res
     raise AssertionError(kind)
 
